@@ -76,6 +76,87 @@ pub fn child_main(dir: &str, n: usize) {
     }
 }
 
+/// A source that the compiler rejects at some stage (grammar, parse-tree construction, analysis).
+fn rejected_source(t: &mut Tape, base: &str) -> (String, &'static str) {
+    let depth = t.index(48);
+    let mut open = String::new();
+    let mut close = String::new();
+    for k in 0..depth {
+        open.push_str(&format!("let n{k}: () = {{ "));
+        close.push_str(" };");
+    }
+    match t.index(8) {
+        0 => (format!("fn main() {{ {open}let x: List<u8, {}> = list![];{close} }}", [3u32, 5, 6, 7, 9, 100, 0, 1][t.index(8)]), "list-bound"),
+        1 => (format!("fn main() {{ {open}let y: u8 = match witness::E {{ Left(a: u8) => a, Left(b: u8) => b, }};{close} }}"), "match-arms"),
+        2 => (format!("fn main() {{ {open}let x: [u8; 99999999999999999999999999] = [];{close} }}"), "array-size"),
+        3 => (format!("fn main() {{ {open}let x: u8 = 256;{close} }}"), "literal-range"),
+        4 => (format!("fn main() {{ {open}let x: u8 = undefined_name;{close} }}"), "undefined"),
+        5 => (format!("fn main() {{ {open}let x: u7 = 1;{close} }}"), "grammar"),
+        6 => {
+            let (m, _) = crate::textmut::mutate(t, base, "fn main() { let x: List<u8, 3> = list![1]; }");
+            // resource guards of DESIGN section 3 (a declared size of 2^32 makes the analyser allocate it)
+            if crate::checks::c06::guard(&m).is_some() {
+                (base.chars().rev().collect(), "guarded-mutant-replaced")
+            } else {
+                (m, "token-mutant")
+            }
+        }
+        _ => (base.chars().take(t.index(base.chars().count().max(1))).collect(), "truncated"),
+    }
+}
+
+/// The result of compiling a source does not depend on what the same thread compiled (and was
+/// refused) before.
+fn s_history(t: &mut Tape, ctx: &mut Ctx) -> Result<(), Failure> {
+    let g = gen::generate(t, GenCfg { params: false, ..GenCfg::small() });
+    let style = Style::from_seed(t.next() as u64);
+    let text = render::render(&g.prog, &style);
+    let first: Vec<_> = [false, true].into_iter().map(|d| compile_bytes(&text, d)).collect();
+    for r in &first {
+        if let Err(p) = r {
+            return Err(Failure::new(format!("panic:{}", crate::run::panic_site(p)), format!("compilation panicked: {p}\n{}", truncate(&text, 1500))));
+        }
+    }
+    let n = 150 + t.index(250);
+    let mut kinds = std::collections::BTreeMap::new();
+    let mut n_rejected = 0;
+    for _ in 0..n {
+        let (src, kind) = rejected_source(t, &text);
+        for d in [false, true] {
+            ctx.evals(1);
+            match compile_bytes(&src, d) {
+                Ok(Err(_)) => n_rejected += 1,
+                Ok(Ok(_)) => {}
+                // a panic on arbitrary text is C06's business
+                Err(_) => {}
+            }
+        }
+        *kinds.entry(kind).or_insert(0u32) += 1;
+    }
+    for (d, debug) in [false, true].into_iter().enumerate() {
+        ctx.evals(1);
+        let again = compile_bytes(&text, debug).map_err(|p| Failure::new(format!("panic:{}", crate::run::panic_site(&p)), format!("compilation panicked after {n} other sources: {p}")))?;
+        let before = first[d].as_ref().expect("checked above");
+        if fingerprint(&again) != fingerprint(before) {
+            let what = match &again {
+                Err(e) => format!("error: {}", pipe::last_line(e)),
+                Ok(_) => "other bytes".to_string(),
+            };
+            return Err(Failure::new(
+                "c19:result-depends-on-earlier-compilations",
+                format!("the same source (debug={debug}) compiled to {} first and to {} ({what}) after the thread had compiled {n} other sources, {n_rejected} of them rejected\n{}", fingerprint(before), fingerprint(&again), truncate(&text, 2000)),
+            )
+            .with(json!({"program": text, "debug": debug, "sources_between": n})));
+        }
+    }
+    if n_rejected > 0 && first[0].as_ref().map_or(false, |r| r.is_ok()) {
+        ctx.nontrivial(digest(&[text.as_bytes(), &n.to_le_bytes()]));
+    }
+    ctx.label("history");
+    ctx.sample(n as u64, || json!({"program": truncate(&text, 600), "sources_between": n, "rejected_compilations": n_rejected, "kinds": kinds}));
+    Ok(())
+}
+
 const CHUNK: u64 = 16;
 
 fn e_chunk(ci: u64, ctx: &mut Ctx) -> Result<(), Failure> {
@@ -203,13 +284,13 @@ pub fn streams() -> Vec<Stream> {
         name: "chunks",
         kind: Kind::Enum { count: |t: Tier| (seeds::examples().len() as u64 + t.pick(300, 5000)).div_ceil(CHUNK), complete: |_| false, f: e_chunk },
         isolate: false,
-    }]
+    }, Stream { name: "history", kind: Kind::Tape { cases: |t: Tier| t.pick(400, 12_000), max_len: 4000, f: s_history }, isolate: false }]
 }
 
 pub fn def() -> PropertyDef {
     PropertyDef {
         id: "C19",
-        rule: "programs = the shipped examples + 300 (thorough 5000) generated programs, every fifth one a near-miss edit (often rejected, for the error side), one per chunk a program of 300-700 statements whose encoding is several KiB long, in chunks of 16 x {debug off, on}. Per chunk: 5 in-process compilations of every program (fresh CompiledProgram each, interleaved with the other programs of the chunk) must give identical commit encodings and CMRs; 6 (thorough 32) separately started processes (each with its own hash seeds) must report the same digest of encoding + CMR, or the same error status; `simc FILE [--debug]` built from /repo must print `Program:` + base64 of exactly the library's commit encoding and exit 0 when the library returns Ok, and exit non-zero with a non-empty stderr and no `Program:` line when the library returns Err. evaluations = compilations compared + simc runs. Non-trivial = accepted program with >= 3 functions / aliases / witnesses (so the hash maps have something to reorder), debug on; distinct by digest of the text.",
+        rule: "programs = the shipped examples + 300 (thorough 5000) generated programs, every fifth one a near-miss edit (often rejected, for the error side), one per chunk a program of 300-700 statements whose encoding is several KiB long, in chunks of 16 x {debug off, on}. Per chunk: 5 in-process compilations of every program (fresh CompiledProgram each, interleaved with the other programs of the chunk) must give identical commit encodings and CMRs; 6 (thorough 32) separately started processes (each with its own hash seeds) must report the same digest of encoding + CMR, or the same error status; `simc FILE [--debug]` built from /repo must print `Program:` + base64 of exactly the library's commit encoding and exit 0 when the library returns Ok, and exit non-zero with a non-empty stderr and no `Program:` line when the library returns Err. stream history: a generated program is compiled (debug off / on), then the same thread compiles 150-400 other sources of which most are rejected at different stages (list bound not a power of two, incompatible match arms, oversized array size, literal out of range, undefined name, grammar error, token mutants and truncations of the program; each nested 0-47 blocks deep), then the program again: same bytes and CMR, or the same error status. evaluations = compilations compared + simc runs. Non-trivial = accepted program with >= 3 functions / aliases / witnesses (so the hash maps have something to reorder), debug on; distinct by digest of the text.",
         assumptions: &["an order dependence whose probability per process is tiny can be missed: N processes only give 1 - 2^-N confidence for a two-way ordering"],
         streams,
         health: &[],
